@@ -97,9 +97,16 @@ def gen_scenario(rng, n_min, n_max, parallel, with_127):
         if parallel and rng.random() < 0.15 and n > 3:
             r['excl'] = True
         s = []
-        kind = rng.choice(['ok', 'ok', 'flaky', 'flaky', 'fails', 'late'])
+        kind = rng.choice(['ok', 'ok', 'flaky', 'flaky', 'fails', 'late', 'alternating'])
+        if kind == 'alternating':
+            # the first attempt of every invocation fails: never `retries` failures in a row, more failures in
+            # total than `retries`
+            r['N'] = rng.randint(2, 4)
+            r['retries'] = rng.choice([2, 2, 3])
         for k in range(r['N'] + 8):
-            if kind == 'ok':
+            if kind == 'alternating':
+                s.append({'rc': 1, 'dps': 0} if k % 2 == 0 else {'rc': 0, 'dps': rng.choice([1, 2])})
+            elif kind == 'ok':
                 s.append({'rc': 0, 'dps': rng.choice([1, 2, 3])})
             elif kind == 'flaky':
                 s.append({'rc': 0, 'dps': rng.choice([1, 2])} if rng.random() < 0.6
@@ -109,10 +116,13 @@ def gen_scenario(rng, n_min, n_max, parallel, with_127):
                 s.append({'rc': 1, 'dps': 0})
             else:
                 s.append({'rc': 0, 'dps': 1} if k < r['N'] - 1 else {'rc': 3, 'dps': 1})
-        if with_127:
-            s.insert(rng.randint(0, min(2, r['N'])), {'rc': 127, 'dps': 0})
         runs.append(r)
         scripts.append(s)
+    if with_127:
+        # one or a few runs meet a missing executable; the others are ordinary
+        hit = [i for i in range(n) if rng.random() < 0.4] or [rng.randrange(n)]
+        for i in hit:
+            scripts[i].insert(rng.randint(0, min(2, runs[i]['N'])), {'rc': 127, 'dps': 0})
     return {'runs': runs}, scripts
 
 
@@ -269,16 +279,56 @@ def session_ok(ck, inp, obs):
     return True
 
 
+def per_run_view(obs):
+    v = {}
+    for (kind, r, inv) in obs['log']:
+        if kind == 'start':
+            v.setdefault(r, {'starts': [], 'rows': []})['starts'].append(inv)
+    for row in obs['file']['rows']:
+        v.setdefault(row[0], {'starts': [], 'rows': []})['rows'].append(row[1:])
+    for r in v:
+        v[r]['starts'].sort()
+        v[r]['rows'].sort()
+    return v
+
+
+def cut_short_by_missing_executable(inp, ref, obs):
+    """is the difference between the two sessions confined to runs that were cut short because an executable
+    turned out to be missing (their own process returned 127, or a run of the same executable did and they were
+    marked to fail immediately)? How much such a run had done by then depends on the schedule (recorded finding)."""
+    scn = inp.get('scn') or {}
+    va, vb = per_run_view(ref), per_run_view(obs)
+    differing = [q for q in sorted(set(va) | set(vb)) if va.get(q) != vb.get(q)]
+    fa, fb = ref.get('final') or {}, obs.get('final') or {}
+    for q in set(fa) | set(fb):
+        if q not in differing and (fa.get(q, {}).get('maxInv'), ) != (fb.get(q, {}).get('maxInv'), ):
+            differing.append(q)
+    if not differing:
+        return False, differing
+    missing_exes = set()
+    for fin in (fa, fb):
+        for q, f in fin.items():
+            if f.get('exeMissing') and int(q) < len(scn.get('runs', [])):
+                missing_exes.add(scn['runs'][int(q)]['exe'])
+    for q in differing:
+        marked = (fa.get(q, {}).get('failNow') or fb.get(q, {}).get('failNow'))
+        if not marked or q >= len(scn.get('runs', [])) or scn['runs'][q]['exe'] not in missing_exes:
+            return False, differing
+    return True, differing
+
+
 def compare_with_batch(ck, inp, ref, obs, what, n127):
     a, b = summary(ref), summary(obs)
     for key in ('starts', 'commands', 'rows', 'ending'):
         if a[key] != b[key]:
             extra = [x for x in b[key] if x not in a[key]] if key != 'ending' else b[key]
             missing = [x for x in a[key] if x not in b[key]] if key != 'ending' else a[key]
+            explained, differing = cut_short_by_missing_executable(inp, ref, obs)
             ck.oracle_fail('schedule_independent', inp,
                            {'differs': key, 'scheduler': what, 'batch': a[key], 'other': b[key],
-                            'only_other': extra, 'only_batch': missing},
+                            'only_other': extra, 'only_batch': missing, 'differing_runs': differing},
                            signature={'differs': key, 'a_process_returns_127': bool(n127),
+                                      'only_runs_cut_short_by_a_missing_executable_differ': bool(n127) and explained,
                                       'parallel': what.startswith('parallel')})
             return False
     bad = contiguous(obs['file']['rows'])
